@@ -600,6 +600,170 @@ pub async fn run_net_scenario(sc: &Value, workdir: &str) -> Vec<Value> {
                 out.append(&mut l);
                 out.push(json!({"ev":"quiescent","pending": if pending_at_end || got < total { "recv" } else { "none" },"woken_since_poll":false,"mt":true,"got":got,"total":total}));
             }
+            "mt_twins" => {
+                // Registry.tla on the real runtime: groups of two raw connections that announce ONE identity finish their
+                // handshakes at the same instant (READY written from two tasks behind a barrier) while the application receives;
+                // afterwards every connection the socket has not closed must be one it reads from
+                if sock.is_none() {
+                    continue;
+                }
+                let text = names.get(&nm).cloned().unwrap_or_default();
+                let rounds = op.get("rounds").and_then(|v| v.as_u64()).unwrap_or(10);
+                let groups = op.get("groups").and_then(|v| v.as_u64()).unwrap_or(8);
+                for r in 0..rounds {
+                    let mut cls: Vec<(String, Client)> = vec![];
+                    for g in 0..groups {
+                        for side in ["a", "b"] {
+                            let Ok(Ok(raw)) = tokio::time::timeout(SETTLE, raw_connect(&text)).await else { continue };
+                            let mut cl = Client { raw, inbuf: vec![], handshaken: false };
+                            if cl.raw.write_all(&rc::greeting()).await.is_err() || !fill(&mut cl, 64, SETTLE).await {
+                                continue;
+                            }
+                            cls.push((format!("tw{}g{}{}", r, g, side), cl));
+                        }
+                    }
+                    let barrier = std::sync::Arc::new(tokio::sync::Barrier::new(cls.len()));
+                    let mut hs = vec![];
+                    for (tag, mut cl) in cls {
+                        let b = barrier.clone();
+                        let st = stype.clone();
+                        hs.push(tokio::spawn(async move {
+                            let ident = tag[..tag.len() - 1].as_bytes().to_vec();
+                            let ready = rc::ready(peer_type_for(&st), Some(&ident));
+                            b.wait().await;
+                            let ok = cl.raw.write_all(&ready).await.is_ok();
+                            let frames = app_msg(&st, tag.as_bytes());
+                            let wrote = ok && cl.raw.write_all(&rc::enc_msg(&frames)).await.is_ok();
+                            (tag, cl, wrote)
+                        }));
+                    }
+                    // the application receives while the handshakes race
+                    let mut got: std::collections::BTreeSet<String> = Default::default();
+                    let until = tokio::time::Instant::now() + Duration::from_millis(400);
+                    while tokio::time::Instant::now() < until {
+                        let f = sock.as_mut().unwrap().recv().unwrap();
+                        if let Ok(Ok(m)) = tokio::time::timeout(Duration::from_millis(40), f).await {
+                            for fr in from_msg(&m) {
+                                let t = String::from_utf8_lossy(&fr).to_string();
+                                if let Some(i) = t.find("tw") {
+                                    got.insert(t[i..].to_string());
+                                }
+                            }
+                        }
+                    }
+                    let mut done = vec![];
+                    for h in hs {
+                        if let Ok(x) = h.await {
+                            done.push(x);
+                        }
+                    }
+                    // the race is over: every connection that is still open writes once more, and it is THIS message that
+                    // must arrive (the first one may have been read before a registration step let go of the read half)
+                    let mut state: Vec<(String, bool, bool)> = vec![];
+                    for (tag, cl, wrote) in done.iter_mut() {
+                        let eof = client_eof(cl, Duration::from_millis(30)).await;
+                        let tag2 = format!("{}2", tag);
+                        let frames = app_msg(&stype, tag2.as_bytes());
+                        let w2 = !eof && *wrote && cl.raw.write_all(&rc::enc_msg(&frames)).await.is_ok();
+                        state.push((tag2, w2, eof));
+                    }
+                    // a connection that is open and not yet read from gets more time before it counts (a loaded machine)
+                    let patience = tokio::time::Instant::now() + Duration::from_secs(3);
+                    while state.iter().any(|(t, w, e)| *w && !*e && !got.contains(t)) && tokio::time::Instant::now() < patience {
+                        let f = sock.as_mut().unwrap().recv().unwrap();
+                        if let Ok(Ok(m)) = tokio::time::timeout(Duration::from_millis(100), f).await {
+                            for fr in from_msg(&m) {
+                                let t = String::from_utf8_lossy(&fr).to_string();
+                                if let Some(i) = t.find("tw") {
+                                    got.insert(t[i..].to_string());
+                                }
+                            }
+                        }
+                        for (i, (_, cl, _)) in done.iter_mut().enumerate() {
+                            if !state[i].2 {
+                                state[i].2 = client_eof(cl, Duration::from_millis(1)).await;
+                            }
+                        }
+                    }
+                    for (tag, wrote, eof) in state {
+                        let delivered = got.contains(&tag);
+                        out.push(json!({"ev":"twin","round":r,"tag":tag,"wrote":wrote,"closed_by_socket":eof,"delivered":delivered}));
+                    }
+                    // (the clients are dropped here: the socket sees their end during the next round's receive loop)
+                }
+            }
+            "mt_rejoin" => {
+                // Registry.tla on the real runtime: a peer of a round-robin sender comes back under its identity (READY on the
+                // new connection) at about the moment the socket notices the end of the old one; afterwards the peer is
+                // connected, so a send must reach it
+                if sock.is_none() {
+                    continue;
+                }
+                let text = names.get(&nm).cloned().unwrap_or_default();
+                let rounds = op.get("rounds").and_then(|v| v.as_u64()).unwrap_or(100);
+                let seed = op.get("seed").and_then(|v| v.as_u64()).unwrap_or(1);
+                let mut rng = crate::codec::Lcg(seed.wrapping_mul(7919).wrapping_add(17));
+                let ident = b"rejoiner".to_vec();
+                let mut old: Option<Client> = None;
+                for r in 0..rounds {
+                    let Ok(Ok(raw)) = tokio::time::timeout(SETTLE, raw_connect(&text)).await else { continue };
+                    let mut cl = Client { raw, inbuf: vec![], handshaken: false };
+                    if cl.raw.write_all(&rc::greeting()).await.is_err() || !fill(&mut cl, 64, SETTLE).await {
+                        continue;
+                    }
+                    let ready = rc::ready(peer_type_for(&stype), Some(&ident));
+                    let offset = rng.below(200);
+                    let closer = old.take().map(|o| {
+                        tokio::spawn(async move {
+                            drop(o);
+                        })
+                    });
+                    let writer = tokio::spawn(async move {
+                        tokio::time::sleep(Duration::from_micros(offset)).await;
+                        let ok = cl.raw.write_all(&ready).await.is_ok();
+                        (cl, ok)
+                    });
+                    // the application is in recv (that is where a DEALER notices the end of the old connection)
+                    let until = tokio::time::Instant::now() + Duration::from_millis(8);
+                    while tokio::time::Instant::now() < until && stype != "PUSH" {
+                        let f = sock.as_mut().unwrap().recv().unwrap();
+                        let _ = tokio::time::timeout(Duration::from_millis(2), f).await;
+                    }
+                    if let Some(c) = closer {
+                        let _ = c.await;
+                    }
+                    let Ok((mut cl, ok)) = writer.await else { continue };
+                    if !ok || !fill(&mut cl, 66, SETTLE).await {
+                        out.push(json!({"ev":"rejoin","round":r,"handshaken":false,"served":false,"err":""}));
+                        old = Some(cl);
+                        continue;
+                    }
+                    // the peer is connected: a send must reach it (registration may lag the handshake by an instant)
+                    let tag = format!("rj{}", r).into_bytes();
+                    let mut served = false;
+                    let mut last_err = String::new();
+                    for _ in 0..60 {
+                        let f = sock.as_mut().unwrap().send(to_msg(&[tag.clone()])).unwrap();
+                        match tokio::time::timeout(Duration::from_millis(500), f).await {
+                            Ok(Ok(())) => {
+                                if client_gets(&mut cl, &tag, Duration::from_millis(300)).await {
+                                    served = true;
+                                    break;
+                                }
+                                last_err = "sent-elsewhere".into();
+                            }
+                            Ok(Err(e)) => last_err = errkind(&e).0,
+                            Err(_) => last_err = "send-timeout".into(),
+                        }
+                        tokio::time::sleep(Duration::from_millis(5)).await;
+                    }
+                    out.push(json!({"ev":"rejoin","round":r,"handshaken":true,"served":served,"err":last_err,"offset_us":offset}));
+                    old = Some(cl);
+                    if !served {
+                        break;
+                    }
+                }
+            }
             "serve" => {
                 // harness-side listener the socket will connect out to
                 let l = TcpListener::bind("127.0.0.1:0").await.expect("bind");
